@@ -88,4 +88,21 @@ theorem exported_key_loads_in_other_backend :
          | .ok _ => autodetect b' ⟨exportOfLoaded b src, k⟩ == .ok k.defaultAlg
          | _ => true))))) = true := by decide
 
+/-- **one back end per build**: every combination of the two back-end features selects exactly
+    one set of guarded items — none without either, ring's with ring alone, aws-lc-rs' as soon as
+    `aws_lc_rs` is on (with or without `ring`): the two guards `feature = "aws_lc_rs"` and
+    `all(feature = "ring", not(feature = "aws_lc_rs"))` never hold together, and one of them
+    holds exactly when `crypto` does -/
+theorem one_backend_per_build (f : BackendFeatures) :
+    (f.backend.isSome = f.crypto) ∧
+    (f.awsLcRs = true → f.backend = some .aws) ∧
+    (f.awsLcRs = false → f.ring = true → f.backend = some .ring) := by
+  cases f with | mk r a => cases r <;> cases a <;> decide
+
+/-- a build with both features on is the aws-lc-rs build, for everything the model says about
+    a back end: turning `ring` on next to `aws_lc_rs` changes no answer (the `both` harness build
+    is held to this on the whole key-loading matrix of C11 and the case file of C16) -/
+theorem ring_next_to_aws_changes_nothing :
+    (⟨true, true⟩ : BackendFeatures).backend = (⟨false, true⟩ : BackendFeatures).backend := by decide
+
 end Rcgen.Theorems.C16
